@@ -629,15 +629,11 @@ structure Ctx where
   /-- methods of `self` that are not dumped (static methods around primitives), by name -/
   selfMeth : String → Option (List Val → Except PyErr Val) := fun _ => none
 
-/-- `x = v`: an existing binding is replaced where it is, a new one is added at the end. -/
-def Env.set : Env → String → Val → Env
+/-- `x = v` in an association list (the local variables; the fields of an object): an existing binding is replaced where
+it is, a new one is added at the end. -/
+def assocSet {α : Type} : List (String × α) → String → α → List (String × α)
   | [], x, v => [(x, v)]
-  | (y, w) :: r, x, v => if y = x then (x, v) :: r else (y, w) :: Env.set r x v
-
-/-- The same for the fields of an object. -/
-def fieldSet : List (String × Field) → String → Field → List (String × Field)
-  | [], f, v => [(f, v)]
-  | (g, w) :: r, f, v => if g = f then (f, v) :: r else (g, w) :: fieldSet r f v
+  | (y, w) :: r, x, v => if y = x then (x, v) :: r else (y, w) :: assocSet r x v
 
 /-- May the value `v` of the expression `e` get a further name?  Not when it is a mutable object that `e` did not create. -/
 def aliasOK (e : Expr) (v : Val) : Bool := !v.mutable || e.makesNew
@@ -652,7 +648,7 @@ def getField (env : Env) (o f : String) : Except PyErr Field :=
 /-- `o.f = fv` (creating the field when it is new). -/
 def putField (env : Env) (o f : String) (fv : Field) : Env × Bool :=
   match env.lookup o with
-  | some (.obj fs) => (Env.set env o (.obj (fieldSet fs f fv)), true)
+  | some (.obj fs) => (assocSet env o (.obj (assocSet fs f fv)), true)
   | _ => (env, false)
 
 def toTuple : List Val → Except PyErr Val
@@ -752,7 +748,7 @@ def execS (cx : Ctx) (env : Env) : Stmt → Env × Res
   | .pass => (env, .next)
   | .assign x e =>
     (match eval cx env e with
-     | .ok v => if aliasOK e v then (Env.set env x v, .next) else (env, .exc (unsupported "a second name for a mutable object"))
+     | .ok v => if aliasOK e v then (assocSet env x v, .next) else (env, .exc (unsupported "a second name for a mutable object"))
      | .error err => (env, .exc err))
   | .expr e => (match eval cx env e with | .ok _ => (env, .next) | .error err => (env, .exc err))
   | .ret e => (match eval cx env e with | .ok v => (env, .ret v) | .error err => (env, .exc err))
@@ -774,7 +770,7 @@ def execS (cx : Ctx) (env : Env) : Stmt → Env × Res
         | none => (env, .exc .typeError)
         | some items =>
           if !v.mutable || it.isVar || it.makesNew then
-            forLoop (fun env v => Env.set env x v) (fun env => execL cx env body) items env
+            forLoop (fun env v => assocSet env x v) (fun env => execL cx env body) items env
           else (env, .exc (unsupported "iteration over a field that the loop could change"))))
   | .brk => (env, .brk)
   | .cont => (env, .cont)
@@ -842,7 +838,7 @@ def execH (cx : Ctx) (env : Env) (err : PyErr) : List Handler → Env × Res
   | [] => (env, .exc err)
   | .mk ty body :: hs => if catches ty err then execL cx env body else execH cx env err hs
   | .mkAs ty name body :: hs =>
-    if catches (some ty) err then execL cx (Env.set env name (.caught err)) body else execH cx env err hs
+    if catches (some ty) err then execL cx (assocSet env name (.caught err)) body else execH cx env err hs
 end
 
 /-- Positional arguments, then keyword arguments by name, then the defaults (evaluated in the empty environment).
